@@ -40,7 +40,7 @@ func main() {
 	}
 	run := hx.Start()
 	defer run.Finish()
-	run.Watch(180*time.Second, 8<<30, func(cur string) string { return "watchdog:" + strings.SplitN(cur, " ", 2)[0] })
+	run.Watch(300*time.Second, 8<<30, func(cur string) string { return "watchdog:" + strings.SplitN(cur, " ", 2)[0] })
 
 	selfTestSchema(run)
 	var scs []Scenario
@@ -413,8 +413,9 @@ func faultRuns(run *hx.Run) {
 		run.Current(fmt.Sprintf("fault %s (%d children)", sc.Name, n-first))
 		parallel(n-first, 12, func(k int) {
 			i := first + k
-			results[k] = runChild(self, dir, fmt.Sprintf("%s-%d", sc.Name, i), []string{"chain", string(scJSON), fmt.Sprint(i)}, 90*time.Second)
+			results[k] = runChild(self, dir, fmt.Sprintf("%s-%d", sc.Name, i), []string{"chain", string(scJSON), fmt.Sprint(i)}, 150*time.Second)
 			results[k].FailAt = i
+			run.Current(fmt.Sprintf("fault %s child %d done", sc.Name, i))
 		})
 		for i := range results {
 			res := &results[i]
